@@ -719,6 +719,8 @@ def s_unpack_total(vc):
     """Arbitrary bytes (sections of <= 1 entry each): the framing code of DNSMessage.unpack_from raises nothing but the parse
     error (struct.error), given that the name reader / decompressor raise nothing else (their contracts)."""
     buf = vc.sym_bytes("buf")
+    if vc.branch(len_(buf) >= 12):
+        vc.assume(And(be16(buf, 8) == 0, be16(buf, 10) == 0))   # authority / additional sections: same code path (unpack_rrs) as answers
     R = Recorder(vc)
     R.install(vc)
     out = vc.call(M + ".unpack_from", vc.const(M), buf, 0, None)
@@ -729,14 +731,12 @@ def s_unpack_total(vc):
 
 @scenario("message.unpack_from.framing", functions=[M + ".unpack_from"], max_unroll=2)
 def s_unpack_framing(vc):
-    """RFC 1035 §4.1 read side on a buffer laid out per the RFC (name regions and RDATA of arbitrary length and content,
-    arbitrary trailing bytes), name reader / RDATA decompression abstracted by their contracts: sections are read in order
+    """RFC 1035 §4.1 read side on a buffer laid out per the RFC (name regions of arbitrary length and content, RDATA of 0 or
+    3 arbitrary octets, arbitrary trailing bytes), name reader / RDATA decompression abstracted by their contracts: sections are read in order
     with the counts of the header, every field from the offset where the previous one ended, RDATA is the RDLENGTH octets
     after the record header (or their decompression for name-bearing types), the returned offset is the end of the message."""
     shape = vc.case("shape", [(1, 1, 0, 0), (0, 0, 1, 1), (2, 0, 0, 0)])
-    f = sym_header_fields(vc)
-    vc.assume(in_range(f))
-    parts = [be(f["id"], 2), be(spec_flags(f), 2)] + [be(n, 2) for n in shape]
+    parts = [be(0x1234, 2), be(0x8583, 2)] + [be(n, 2) for n in shape]   # header fields: contract `header.unpack_from`
     regions = []           # name regions in wire order
     qs, rrs = [], [[], [], []]
     for i in range(shape[0]):
@@ -750,8 +750,9 @@ def s_unpack_framing(vc):
         for i in range(shape[1 + sec]):
             tag = f"rr{sec}_{i}"
             N = vc.sym_bytes(f"{tag}_name_region")
-            D = vc.sym_bytes(f"{tag}_rdata")
-            vc.assume(And(len_(N) >= 1, len_(D) <= 65535))
+            dl = vc.case(f"{tag}_rdlength", [3, 0])
+            D = from_codes([vc.sym_int(f"{tag}_rdata{j}") % 256 for j in range(dl)]) if dl else b""
+            vc.assume(len_(N) >= 1)
             t, c, ttl = vc.sym_int(f"{tag}_type", lo=0, hi=65535), vc.sym_int(f"{tag}_class", lo=0, hi=65535), vc.sym_int(f"{tag}_ttl", lo=0, hi=2 ** 32 - 1)
             regions.append(N)
             rrs[sec].append((t, c, ttl, D))
@@ -808,7 +809,6 @@ def s_unpack_framing(vc):
         vc.ensure(f"name{i}.whole_message_and_shared_cache", b is buf and c is calls["n"][0][2])
     vc.ensure("end_offset", out.result[0] == end)
     msg = out.result[1]
-    check_header_fields(vc, msg, f, "header")
     vc.ensure("questions.count", len_(msg.questions) == len(qs))
     if len_(msg.questions) == len(qs):
         for i, (t, c) in enumerate(qs):
@@ -876,3 +876,203 @@ def s_message_unpack(vc):
             vc.ensure("exact.message", out.result is inner_msg)
     else:
         vc.ensure("trailing_bytes.parse_error", raised_is(out, SE()))
+
+
+# =============================================================================================
+# T2 (bounded): the real DNSMessage codec on enumerated messages and byte strings
+
+ASSUMPTIONS = [
+    "the idna codec (bytes.decode('idna') / str.encode('idna')) is library behaviour: uninterpreted functions in T1 (dec_idna, enc_idna, idna_dec_status, idna_encodable; ''.encode('idna') == b''), exercised for real in T2",
+    "IDNA-canonical name = every label l is non-empty, contains no '.', encodes to 1..63 octets and dec_idna(enc_idna(l)) == l",
+    "T1 name/label loops are unrolled (names of <= 3-4 labels; split('.') of names with <= 4 labels; sections of <= 2 entries); composition to arbitrary sizes is by the induction described in EXPLANATION and checked bounded in T2",
+    "message.unpack_from.framing: RDATA lengths 0 and 3, header fixed (header fields are covered by header.unpack_from); message.unpack_from.total: authority/additional counts 0 (same code path as answers)",
+    "a | b on two symbolic ints is modelled as a + b - (a & b) with (a & b) = 0 derived only for disjoint bit ranges (sound over-approximation)",
+    "summaries used in message-level scenarios are the contracts proved in the name-level scenarios (name reader: returns (text, length >= 1) or raises struct.error; decompress: returns bytes)",
+]
+EXPLANATION = (
+    "T1 proves the mechanisms for all inputs: the label step (_unpack_label_into: exact consumption, progress >= 1 octet inside the buffer, "
+    "only struct.error except the recorded idna UnicodeError class), the two label loops over an abstract step (consecutive offsets, join, end offset, "
+    "pointer handling), one activation of the compressed reader with the recursive call abstracted (the offset is marked in the cache before the single "
+    "recursive call, re-entry is a parse error: the termination measure), pack (exact RFC 1035 framing for names with <= 4 labels), the label round trip "
+    "dec(enc(l)) read back exactly, header flag packing/unpacking against the RFC bit layout over the full field ranges plus the arithmetic glue lemma, "
+    "message framing in both directions with name handling abstracted. The composition (round trip of whole messages with any number of labels/records, "
+    "totality of DNSMessage.unpack on arbitrary bytes, re-encoding of decoded messages) is an induction over these lemmas that is not mechanised: it is "
+    "checked bounded in T2 on the real code, together with the real idna codec."
+)
+
+T2_NAMES = ["", "a", "example.com", "münchen.de", "bücher.example", "A.b", "a-b.c_d", "x" * 63 + ".y", "*.example.org", "a.b.c.d.e.f.g", "1.0.0.127.in-addr.arpa", "例え.jp"]
+NAME_BEARING_LISTED = None
+
+
+def _listed_types():
+    from mitmproxy.net.dns import domain_names
+    return [t for t in range(0, 300) if domain_names.record_data_can_have_compression(t)]
+
+
+def _mk(id=0, query=True, op=0, aa=False, tc=False, rd=False, ra=False, z=0, rcode=0, q=(), an=(), ns=(), ar=()):
+    from mitmproxy import dns
+    return dns.DNSMessage(id=id, query=query, op_code=op, authoritative_answer=aa, truncation=tc, recursion_desired=rd, recursion_available=ra,
+                          reserved=z, response_code=rcode, questions=list(q), answers=list(an), authorities=list(ns), additionals=list(ar))
+
+
+def _hdr(id=1, flags=0, q=0, an=0, ns=0, ar=0):
+    import struct
+    return struct.pack("!HHHHHH", id, flags, q, an, ns, ar)
+
+
+def _decode(buf):
+    """('msg', m) | ('parse_error', text) | ('other', exception)"""
+    import struct
+    from mitmproxy import dns
+    try:
+        return "msg", dns.DNSMessage.unpack(buf)
+    except struct.error as e:
+        return "parse_error", str(e)
+    except BaseException as e:  # noqa: B036 - RecursionError etc. are exactly what the check is about
+        return "other", e
+
+
+def _label_class(buf_desc):
+    return buf_desc
+
+
+def bounded(tier, seed):
+    import itertools, random, struct, time
+    from mitmproxy import dns
+    from props import dnsref
+    b = Bounded()
+    rnd = random.Random(seed)
+    quick = tier == "quick"
+    b.rule = ("A: well-formed messages (header fields over boundary values x names incl. IDN/63-octet labels/root x types x classes x TTLs x RDATA byte strings) "
+              "-> packed -> unpack == message; B: byte strings (valid header + every string over a pointer/length alphabet, truncations of valid messages at every cut, "
+              "trailing bytes, pointer chains and loops, labels around the idna ACE prefix) -> message or struct.error within a time budget, and decoded messages "
+              "re-encode to bytes that decode to the same message; C: idna axioms used in T1 vs the real codec. distinct = distinct input; non-trivial = decodes / is well-formed")
+    b.bound = "A: <= 3 records, RDATA <= 3 bytes over {00,01,0c,3f,40,c0,ff} (+ structured); B: tails <= 3 (quick) / 4 (thorough) bytes over {00,01,02,03,0c,3f,40,61,2e,c0,ff}; pointer chains <= 3000"
+    listed = set(_listed_types())
+    # ---------------- A: encode -> decode
+    alpha = [0x00, 0x01, 0x0c, 0x3f, 0x40, 0xc0, 0xff]
+    rdatas = [bytes(t) for n in range(0, 3 if quick else 4) for t in itertools.product(alpha, repeat=n)]
+    rdatas += [b"\x03www\x07example\x03com\x00", b"\x00\x0a\x04mail\x00", bytes(range(16)), b"\xc3\xa4\xc3\xb6", b"\x02\xc0\x0c", b"\xc0\x0c\x00\x01"]
+    types_ = [1, 2, 5, 6, 12, 13, 15, 16, 28, 33, 41, 65, 99, 255, 65535]
+    hdrs = [dict(id=i, query=qr, op=op, aa=aa, tc=tc, rd=rd, ra=ra, z=z, rcode=rc)
+            for i in (0, 1, 0x1234, 65535) for qr in (True, False) for op in (0, 5, 15) for aa in (False, True) for tc in (False, True)
+            for rd in (False, True) for ra in (False, True) for z in (0, 7) for rc in (0, 3, 15)]
+    rnd.shuffle(hdrs)
+    hdrs = hdrs[:60 if quick else 600]
+    for h in hdrs:
+        m = _mk(**h, q=[dns.Question(rnd.choice(T2_NAMES), rnd.choice(types_), rnd.choice([1, 3, 255, 65535]))])
+        b.case(("A.header", tuple(h.items())), nontrivial=True)
+        kind, got = _decode(m.packed)
+        if kind != "msg" or got != m:
+            b.fail("c25.encode_decode_same_message", {"message": repr(m)}, f"decoded: {got!r}")
+    combos = [(n, t, rd) for n in T2_NAMES for t in types_ for rd in rdatas]
+    rnd.shuffle(combos)
+    combos = combos[:2500 if quick else 40000]
+    for n, t, rd in combos:
+        ttl = rnd.choice([0, 1, 60, 2 ** 31, 2 ** 32 - 1])
+        cls = rnd.choice([1, 255, 65535])
+        rr = dns.ResourceRecord(n, t, cls, ttl, rd)
+        qn = rnd.choice(T2_NAMES)
+        m = _mk(id=7, query=False, rd=True, ra=True, q=[dns.Question(qn, t, cls)], an=[rr], ar=[dns.ResourceRecord(qn, 1, 1, 5, b"\x7f\x00\x00\x01")] if rd[:1] == b"\xc0" else [])
+        tag = ".rdata_has_byte>=0xc0_in_type_listed_as_compressible" if (t in listed and any(x >= 0xC0 for x in rd)) else ""
+        b.case(("A.rr", n, t, rd), nontrivial=True)
+        kind, got = _decode(m.packed)
+        if kind != "msg" or got != m:
+            b.fail("c25.encode_decode_same_message" + tag, {"name": n, "type": t, "rdata": rd.hex(), "question": qn},
+                   f"sent rdata {rd.hex()} decoded {(got.answers[0].data.hex() if kind == 'msg' and got.answers else got)!r}")
+    # ---------------- B: decode arbitrary bytes
+    def check_decode(buf, desc):
+        t0 = time.time()
+        kind, got = _decode(buf)
+        dt = time.time() - t0
+        b.case(("B", desc if isinstance(desc, (str, tuple)) else repr(desc), buf[:64]), nontrivial=kind == "msg")
+        inp = {"desc": desc, "bytes": buf[:80].hex() + ("..." if len(buf) > 80 else ""), "len": len(buf)}
+        # class of the INPUT (never of the outcome), from the independent reference reader: recorded findings are per class
+        try:
+            info = dnsref.parse_message(buf, exact=False)[1]
+        except dnsref.RefError:
+            info = set()
+        if dt > 2.0:
+            b.fail("c25.decode_terminates_quickly", inp, f"{dt:.1f}s")
+        if kind == "other":
+            cls = ".label_contains_xn--" if (b"xn--" in buf) else ".pointer_chain>=900" if (desc[0] == "pointer_chain" and desc[1] >= 900) else ""
+            b.fail("c25.decode_total" + cls, inp, f"raised {type(got).__name__}: {str(got)[:120]}")
+            return
+        if kind != "msg":
+            return
+        cls = ".dot_in_label" if "dot_in_label" in info else ".labels_then_pointer_to_root" if "labels_then_pointer_to_root" in info else ""
+        try:
+            again = got.packed
+        except BaseException as e:  # noqa: B036
+            b.fail("c25.decoded_message_reencodes" + cls, inp, f"packed raised {type(e).__name__}: {str(e)[:120]}; names={[q.name for q in got.questions] + [r.name for r in got.answers]}")
+            return
+        k2, got2 = _decode(again)
+        if k2 != "msg" or got2 != got:
+            cls2 = ".rdata_has_byte>=0xc0_in_type_listed_as_compressible" if any(t in listed and any(x >= 0xC0 for x in r.data) for r in got.answers + got.authorities + got.additionals for t in [r.type]) else cls
+            b.fail("c25.reencoded_decodes_to_same_message" + cls2, inp, f"first {got!r} second {got2!r}")
+
+    tails_alpha = [0x00, 0x01, 0x02, 0x03, 0x0c, 0x3f, 0x40, 0x61, 0x2e, 0xc0, 0xff]
+    maxlen = 3 if quick else 4
+    tails = [bytes(t) for n in range(0, maxlen + 1) for t in itertools.product(tails_alpha, repeat=n)]
+    if quick:
+        rnd.shuffle(tails)
+        tails = tails[:900]
+    for t in tails:
+        check_decode(_hdr(q=1) + t + b"\x00\x01\x00\x01", ("q-name-tail", t.hex()))
+        check_decode(_hdr(q=1) + t, ("q-raw-tail", t.hex()))
+    for t in tails[:300 if quick else 3000]:
+        # answer with compressed owner and TXT / MX / A rdata built from the tail
+        for typ in (1, 15, 16):
+            rd = t
+            check_decode(_hdr(q=1, an=1, flags=0x8180) + b"\x03abc\x00\x00\x01\x00\x01" + b"\xc0\x0c" + struct.pack("!HHIH", typ, 1, 60, len(rd)) + rd, ("an-rdata", typ, t.hex()))
+    # valid messages: truncations at every cut, trailing bytes
+    samples = []
+    for n in T2_NAMES[:8]:
+        m = _mk(id=9, query=False, q=[dns.Question(n, 1, 1)], an=[dns.ResourceRecord(n, 1, 1, 60, b"\x01\x02\x03\x04"), dns.ResourceRecord.CNAME(n or "x", "target.example")],
+                ns=[dns.ResourceRecord("example", 6, 1, 5, b"\x00" * 22)], ar=[dns.ResourceRecord.TXT("t.example", "hello")])
+        samples.append(m.packed)
+    for s in samples[:4 if quick else 8]:
+        for cut in range(len(s)):
+            check_decode(s[:cut], ("truncated", cut, len(s)))
+        for extra in (b"\x00", b"\xc0\x0c", b"abc"):
+            check_decode(s + extra, ("trailing", extra.hex()))
+    # labels around the ACE prefix and with dots
+    for lab in [b"xn--", b"xn--a", b"xn--0", b"xn--a-", b"xn--mnchen-3ya", b"XN--MNCHEN-3YA", b"xn--bcher-kva", b".", b"a.", b".a", b"a.b", b"a..b", b"\xe4", b"\xc3\xa4", b" ", b"\x00", b"a" * 63, b"xn--" + b"a" * 59]:
+        check_decode(_hdr(q=1) + bytes([len(lab)]) + lab + b"\x03com\x00" + b"\x00\x01\x00\x01", ("label", lab.hex()))
+        check_decode(_hdr(q=1) + bytes([len(lab)]) + lab + b"\x00" + b"\x00\x01\x00\x01", ("single-label", lab.hex()))
+    # pointers: loops, chains, pointer to root, forward pointers, pointer into header
+    check_decode(_hdr(q=1) + b"\xc0\x0c" + b"\x00\x01\x00\x01", ("pointer-loop", "self"))
+    check_decode(_hdr(q=1) + b"\xc0\x0e" + b"\xc0\x0c" + b"\x00\x01\x00\x01", ("pointer-loop", "two"))
+    check_decode(_hdr(q=1) + b"\x01a\xc0\x0c" + b"\x00\x01\x00\x01", ("pointer-loop", "label-then-self"))
+    check_decode(_hdr(q=1) + b"\xc0\x00" + b"\x00\x01\x00\x01", ("pointer", "into-header"))
+    check_decode(_hdr(q=1) + b"\xff\xff" + b"\x00\x01\x00\x01", ("pointer", "out-of-range"))
+    check_decode(_hdr(q=1, an=1, flags=0x8180) + b"\x00\x00\x02\x00\x01" + b"\x03www\xc0\x0c" + struct.pack("!HHIH", 1, 1, 60, 4) + b"\x01\x02\x03\x04", ("pointer-to-root-after-labels", "www"))
+    check_decode(_hdr(q=1, an=1, flags=0x8180) + b"\x00\x00\x02\x00\x01" + b"\xc0\x0c" + struct.pack("!HHIH", 1, 1, 60, 4) + b"\x01\x02\x03\x04", ("pointer-to-root", "bare"))
+    for n in ([10, 100, 500, 3000] if quick else [10, 100, 500, 900, 1000, 1500, 3000, 8000]):
+        chain = b"".join(struct.pack("!H", 0xC000 | (18 + 2 * (i + 1))) for i in range(n)) + b"\x03end\x00"
+        check_decode(_hdr(q=1) + struct.pack("!H", 0xC000 | 18) + b"\x00\x01\x00\x01" + chain if 18 + 2 * n < 16384 else b"", ("pointer_chain", n))
+    # ---------------- C: the T1 model of the idna codec vs the real codec
+    labels = ["", "a", "abc", "A", "a-b", "münchen", "bücher", "例え", "x" * 63, "x" * 64, "a b", "_srv"]
+    for l in labels:
+        b.case(("C.enc", l), nontrivial=True)
+        try:
+            e = l.encode("idna")
+        except UnicodeError:
+            continue
+        if l == "" and e != b"":
+            b.fail("c25.idna_model.empty_encodes_to_empty", {"label": l}, repr(e))
+        if l and not (0 < len(e)):
+            b.fail("c25.idna_model.nonempty_encodes_nonempty", {"label": l}, repr(e))
+    for raw in [bytes(t) for n in range(1, 3) for t in itertools.product(range(0, 256, 5), repeat=n)][: 1500 if quick else 100000]:
+        b.case(("C.dec", raw), nontrivial=True)
+        try:
+            raw.decode("idna")
+            st = 0
+        except UnicodeDecodeError:
+            st = 1
+        except UnicodeError:
+            st = 2
+        if st == 2 and b"xn--" not in raw:
+            b.fail("c25.idna_model.plain_unicode_error_only_with_ace_prefix", {"raw": raw.hex()}, "")
+    b.exhaustive = False
+    return b
